@@ -1,0 +1,55 @@
+//go:build verif
+
+// Contracts for the native HTTP client (property C21, reduced core). Comment-only.
+
+package vgirpc
+
+// A stream's cursor and finished flag are written by the stream's own operations only (checked
+// package-wide), so what those operations store is all that can ever be in them.
+//@ ownedwrites HttpClientStream.token, HttpClientStream.finished by (*HttpClient).openStream, (*HttpClientStream).Next, (*HttpClientStream).Exchange, (*HttpClientStream).Cancel
+
+// Exchange is not idempotent: the cursor is cleared (and the stream marked finished) BEFORE the
+// turn is posted — that is the state in which the request goes out and in which the response is
+// parsed — and the only other thing Exchange ever stores in the cursor is the non-empty cursor of
+// a completely parsed response carrying exactly one data batch. So after any ambiguous outcome —
+// transport error, non-2xx, over-limit or malformed body, wrong batch count, missing cursor — the
+// stream holds no cursor and refuses further turns.
+//
+//@ func (*HttpClientStream).Exchange
+//@   property C21
+//@   at call (*HttpClient).post assert [clearedfirst] s.token == "" && s.finished && arg3 == body
+//@   at store HttpClientStream.token assert [clearorfresh] value == "" || (err == nil && value == parsed.token && parsed.token != "" && len(parsed.batches) == 1)
+//@   at store HttpClientStream.finished assert [finishedorfresh] value || (err == nil && parsed.token != "" && len(parsed.batches) == 1)
+//@   at call (*HttpClient).parseMain assert [declared] arg2 == s.schemas.Output && arg3
+//@   ensures [local_noturnwithouttoken_ret4] result0 == nil && result1 != nil
+//@   ensures [local_refused_ret5] result0 == nil && result1 != nil
+//@   ensures [local_posterror_ret7] result0 == nil && result1 != nil
+//@   ensures [local_parseerror_ret8] result0 == nil && result1 != nil
+//@   ensures [local_batchcount_ret9] result0 == nil && result1 != nil
+//@   ensures [local_nocursor_ret10] result0 == nil && result1 != nil
+
+// Cancel only ever clears the cursor and only ever sets the finished flag.
+//
+//@ func (*HttpClientStream).Cancel
+//@   property C21
+//@   at store HttpClientStream.token assert [clears] value == ""
+//@   at store HttpClientStream.finished assert [finishes] value
+
+// Next (producer continuation): the cursor it stores is the one the parsed response carried, and
+// the stream is finished exactly when that is empty.
+//
+//@ func (*HttpClientStream).Next
+//@   property C21
+//@   at store HttpClientStream.token assert [fromresponse] value == parsed.token && err == nil
+//@   at call (*HttpClient).parseMain assert [declared] arg2 == s.schemas.Output && !arg3
+
+// post: the request body cap is checked before anything is sent; at most cap+1 encoded bytes are
+// read; a non-2xx status is an HTTPStatusError, never a response.
+//
+//@ func (*HttpClient).post
+//@   property C21
+//@   at call http.NewRequestWithContext assert [requestcap] len(body) <= c.maxRequest
+//@   at call io.LimitReader assert [readatmost] arg1 == wrap(c.maxEncoded + 1, "int64")
+//@   at call DecodeContentEncoding assert [decodeinput] arg0 == encoded
+//@   ensures [local_status_ret12] typeof(result1) == *HTTPStatusError
+//@   ensures [local_ok_ret13] result1 == nil && result0.body == decoded
